@@ -5,20 +5,23 @@ import vcheck as V
 META = {
     "engine": "fec",
     "technique": "machine-checked proof (Coq 8.16.1) over a hand-transcribed executable model of fec.go "
-                 "parameterised by an abstract erasure codec, MDS premise discharged by vm_compute for an "
-                 "independent GF(2^8) Reed-Solomon implementation; model tied to the real fecEncoder/fecDecoder "
+                 "parameterised by an abstract erasure codec; the MDS premise is PROVED for an independent executable "
+                 "GF(2^8) Reed-Solomon implementation of klauspost's buildMatrix for every ratio d+p <= 256 (field laws, "
+                 "Gauss-Jordan inversion correctness, Vandermonde kernel theorem); model tied to the real fecEncoder/fecDecoder "
                  "by byte-for-byte differential replay of generated packet histories (extracted OCaml) plus "
                  "property monitors on the real code",
     "level_text": "proof",
     "level_note": "decoder/encoder theorems are full for all histories relative to the visible premise "
-                  "`mds (mk d p) d p`; that premise is proved by computation for the executable codec for every "
-                  "d+p <= 8 and for 10/3 and stays a hypothesis for other ratios (third-party codec); retention is "
+                  "`mds (mk d p) d p`; that premise is proved (c07_mds_rs_all) for the executable codec Rs.v for every "
+                  "ratio with d+p <= 256, giving the premise-free c07_recover_rs / c07_only_originals_rs; that the "
+                  "third-party library computes the same code as Rs.v is the correspondence (bit-for-bit replay), not a theorem; retention is "
                   "stated on decoder states (held / too_old) rather than as one closed formula over arrival orders",
 }
 
 FILES = ["fec_test.go"]
 OBLIGATIONS = ["c07_recover", "c07_held_accumulates", "c07_only_originals", "c07_wrap",
-               "c07_parity_loss_harmless", "c07_encoder_layout", "c07_mds_rs_le8", "c07_mds_rs_10_3"]
+               "c07_parity_loss_harmless", "c07_encoder_layout", "c07_mds_rs_all", "c07_recover_rs", "c07_only_originals_rs",
+               "c07_mds_rs_le8", "c07_mds_rs_10_3"]
 
 
 def run(ctx):
@@ -42,8 +45,8 @@ def run(ctx):
                             "(late-joining) and walked decoders; sampled ratios up to 128/127; non-trivial = the property demanded "
                             "the reconstruction of at least one missing data packet in the case" % bound)
     ctx.assumptions += [
-        "mds (mk d p) d p: premise of c07_recover / c07_held_accumulates / c07_only_originals; proved by computation for Rs.v "
-        "(= klauspost buildMatrix, compared bit for bit with the library by the harness) for d+p <= 8 and 10/3",
+        "mds (mk d p) d p: premise of c07_recover / c07_held_accumulates / c07_only_originals; proved for Rs.v for every d+p <= 256 (c07_mds_rs_all); "
+        "Rs.v = klauspost buildMatrix is compared bit for bit with the library by the harness, not proved",
         "book: one lap of the id space (a group id names one group content); a packet delayed by 2^32 ids is not modelled",
         "pool buffers / capacities are not modelled (C15); slice faults are Panic outcomes of the model",
         "payloads are opaque to the decoder: short random payloads, a few maximal ones",
